@@ -288,10 +288,27 @@ func c05r4(c *Ctx) {
 							}
 							appends++
 							el := f.ObjOf(ac.Args[1])
+							// a staged record that carries the transaction next to derived values (`staged{id, txn}`)
+							var carried []types.Object
+							if cl, ok := ast.Unparen(ac.Args[1]).(*ast.CompositeLit); ok {
+								for _, e := range cl.Elts {
+									if kv, ok := e.(*ast.KeyValueExpr); ok {
+										e = kv.Value
+									}
+									if o := f.ObjOf(e); o != nil {
+										carried = append(carried, o)
+									}
+								}
+							}
 							okOne := false
 							for _, v := range vals {
 								if v.txn == el && el != nil && f.OnlyVia(n, v.chk.Succ) {
 									okOne = true
+								}
+								for _, o := range carried {
+									if v.txn == o && f.OnlyVia(n, v.chk.Succ) {
+										okOne = true
+									}
 								}
 								// the staged list may hold positions: S = append(S, i) after Validate(ms, X[i]) succeeded
 								if ix, isIdx := ast.Unparen(v.call.Expr.Args[1]).(*ast.IndexExpr); isIdx && el != nil && f.ObjOf(ix.Index) == el && f.OnlyVia(n, v.chk.Succ) {
@@ -407,6 +424,9 @@ func c05r5(c *Ctx) {
 			}
 		}
 		_ = exit
+		if !good && len(appends) == 0 {
+			good = countThenSlice(f, g, node, head, rs)
+		}
 		ob.Check(good, nil, "the weight test at %s does not end the loop on its failing side while guarding every append on its passing side: the block is no longer a prefix of the pool (a skipped parent's child is included) or exceeds the weight limit", c.P.Pos(node.Pos()))
 	}
 	if n == 0 {
@@ -517,4 +537,80 @@ func c05r8(c *Ctx) {
 		}
 		ob.Check(good, nil, "the weight added at %s is not preceded on every path by a reset of the pool's weight to zero (with no other adjustment in between): after each tip change the surviving transactions are counted again on top of the old total, and the eviction loop eventually empties a pool that is not full", c.P.Pos(a.Pos()))
 	}
+}
+
+// countThenSlice recognises the other spelling of "take a prefix up to the weight limit": the loop only counts — its
+// failing side leaves the loop with the position of the first transaction that does not fit, exhaustion yields the
+// length of the list — and the block then takes list[:count]. Every later append that mentions the list must be that
+// slice, with the count defined only in those two ways.
+func countThenSlice(f *ir.Func, g *cfgx.Graph, test, head *cfgx.Node, rs *ast.RangeStmt) bool {
+	list := f.ObjOf(rs.X)
+	key := f.ObjOf(rs.Key)
+	if list == nil || key == nil {
+		return false
+	}
+	// one side of the test leaves the loop for good
+	leaves := false
+	for _, e := range test.Succs {
+		if _, back := f.ReachableFromEdges([]*cfgx.Edge{e}, nil)[head]; !back {
+			leaves = true
+		}
+	}
+	if !leaves {
+		return false
+	}
+	uses := 0
+	ok := true
+	for _, m := range g.Nodes {
+		if m.AST == nil || containsNode(rs, m.AST) {
+			continue
+		}
+		for _, w := range f.WritesIn(m.AST, false) {
+			if w.RHS == nil {
+				continue
+			}
+			ac, isCall := ast.Unparen(w.RHS).(*ast.CallExpr)
+			if !isCall || len(ac.Args) < 2 {
+				continue
+			}
+			if id, isID := ac.Fun.(*ast.Ident); !isID || id.Name != "append" {
+				continue
+			}
+			for _, a := range ac.Args[1:] {
+				if !f.MentionsObj(a, false, list) {
+					continue
+				}
+				uses++
+				se, isSlice := ast.Unparen(a).(*ast.SliceExpr)
+				if !isSlice || f.ObjOf(se.X) != list || se.Low != nil || se.High == nil || !ac.Ellipsis.IsValid() {
+					ok = false
+					continue
+				}
+				cnt := f.ObjOf(se.High)
+				if cnt == nil {
+					ok = false
+					continue
+				}
+				for _, d := range ReachingDefs(f, cnt, m) {
+					if d == nil || d.AST == nil {
+						ok = false
+						continue
+					}
+					fine := false
+					for _, dw := range f.WritesIn(d.AST, false) {
+						if f.ObjOf(dw.LHS) != cnt {
+							continue
+						}
+						if dw.RHS != nil && (f.ObjOf(dw.RHS) == key || (lenOf(f, dw.RHS) != nil && f.ObjOf(lenOf(f, dw.RHS)) == list)) {
+							fine = true
+						}
+					}
+					if !fine {
+						ok = false
+					}
+				}
+			}
+		}
+	}
+	return ok && uses > 0
 }
